@@ -284,8 +284,19 @@ func (i idxField) SetValue(opts *options, elem value, v value) Error {
 // can not have two parents: it is copied, so that the path and parent of the
 // original and of the new setting both describe where they really are.
 func attachValue(v value, ctx context) value {
-	if sub, ok := v.(cfgSub); ok && !sub.c.ctx.empty() {
-		return sub.cpy(ctx)
+	if sub, ok := v.(cfgSub); ok {
+		if !sub.c.ctx.empty() {
+			return sub.cpy(ctx)
+		}
+
+		// A root configuration stored below itself would become its own
+		// ancestor, and every traversal of the tree would recurse without
+		// end: store a copy in that case as well.
+		for p := ctx.getParent(); p != nil; p = p.ctx.getParent() {
+			if p == sub.c {
+				return sub.cpy(ctx)
+			}
+		}
 	}
 	v.SetContext(ctx)
 	return v
